@@ -2,6 +2,7 @@ package rules
 
 import (
 	"fmt"
+	"go/types"
 	"sort"
 	"strings"
 
@@ -457,6 +458,16 @@ func (x *fsx) syncsDirParam(h *ssa.Function) int {
 	return result
 }
 
+func returnsError(fn *ssa.Function) bool {
+	res := fn.Signature.Results()
+	for i := 0; i < res.Len(); i++ {
+		if types.Identical(res.At(i).Type(), types.Universe.Lookup("error").Type()) {
+			return true
+		}
+	}
+	return false
+}
+
 func c092(c *an.Ctx, p *an.Prog, x *fsx) {
 	memo := map[*ssa.Function]int{}
 	for _, fn := range storeFns(p) {
@@ -522,6 +533,12 @@ func c092(c *an.Ctx, p *an.Prog, x *fsx) {
 						continue
 					}
 					if fe.Name == "(*os.File).Sync" && fe.Ops[0].Kind == "base" {
+						synced = true
+					}
+					// an operation that cannot report failure (no error result, e.g. Remove) tried to open the base
+					// directory for the fsync and that failed: same as calling a directory-sync helper and ignoring
+					// its error — nothing this function could acknowledge differently
+					if fe.Name == "os.Open" && len(fe.Ops) > 0 && fe.Ops[0].Kind == "base" && fe.Call != nil && callErrNonNil(s, fe.Call) && !returnsError(fn) {
 						synced = true
 					}
 				}
